@@ -400,40 +400,46 @@ Definition waiters_pass (started : list nat) : list label :=
   flat_map (fun w => repeat_l [LW w] 5) started.
 
 (* one quiescence window: the actor task runs until it parks or finishes, then every
-   started waiter runs until it blocks (twice: a timed-out waiter may pass a permit on) *)
-Definition settle (started : list nat) : list label :=
-  repeat_l [LA 0%nat] 40 ++ waiters_pass started ++ waiters_pass started.
+   started waiter runs until it blocks (twice: a timed-out waiter may pass a permit on).
+   `eager` waiters are polled from inside their waker, i.e. on the exit thread in the middle
+   of notify_waiters(): in the schedule they get a turn after every micro-step of the
+   actor task (a poll without a wake-up is a no-op) *)
+Definition settle (started eager : list nat) : list label :=
+  repeat_l (LA 0%nat :: waiters_pass eager) 40 ++ waiters_pass started ++ waiters_pass started.
 
 Inductive op :=
 | OpStart (w : nat)      (* waiter task w is spawned and runs until it blocks *)
+| OpStartEager (w : nat) (* same, but the waiter is re-polled synchronously by its waker *)
 | OpOpen (g : N)         (* a gate is opened: the cause is delivered / post_stop released / kill *)
 | OpDrain                (* drain()'s status part *)
 | OpTimeout (w : nat)    (* the virtual clock passes waiter w's deadline *)
 | OpSettle.
 
-Fixpoint sched_go (started : list nat) (ops : list op) : list label :=
+Fixpoint sched_go (started eager : list nat) (ops : list op) : list label :=
   match ops with
   | [] => []
-  | OpStart w :: r => repeat_l [LW w] 5 ++ sched_go (started ++ [w]) r
-  | OpOpen g :: r => LOpen g :: sched_go started r
-  | OpDrain :: r => LDrain :: sched_go started r
-  | OpTimeout w :: r => LT w :: sched_go started r
-  | OpSettle :: r => settle started ++ sched_go started r
+  | OpStart w :: r => repeat_l [LW w] 5 ++ sched_go (started ++ [w]) eager r
+  | OpStartEager w :: r => repeat_l [LW w] 5 ++ sched_go (started ++ [w]) (eager ++ [w]) r
+  | OpOpen g :: r => LOpen g :: sched_go started eager r
+  | OpDrain :: r => LDrain :: sched_go started eager r
+  | OpTimeout w :: r => LT w :: sched_go started eager r
+  | OpSettle :: r => settle started eager ++ sched_go started eager r
   end.
 
-Definition sched (ops : list op) : list label := sched_go [] ops.
+Definition sched (ops : list op) : list label := sched_go [] [] ops.
 
 (* the status the driver reads after each operation (each operation is followed by a
    quiescence window in the harness; the generators put OpSettle there) *)
-Fixpoint statuses_go (started : list nat) (ops : list op) (s : st) : list stat :=
+Fixpoint statuses_go (started eager : list nat) (ops : list op) (s : st) : list stat :=
   match ops with
   | [] => []
   | o :: r =>
-      let s' := run (sched_go started [o]) s in
-      let started' := match o with OpStart w => started ++ [w] | _ => started end in
+      let s' := run (sched_go started eager [o]) s in
+      let started' := match o with OpStart w | OpStartEager w => started ++ [w] | _ => started end in
+      let eager' := match o with OpStartEager w => eager ++ [w] | _ => eager end in
       match o with
-      | OpSettle => status s' :: statuses_go started' r s'
-      | _ => statuses_go started' r s'
+      | OpSettle => status s' :: statuses_go started' eager' r s'
+      | _ => statuses_go started' eager' r s'
       end
   end.
 
@@ -451,7 +457,17 @@ Definition run_scenario (s0 : stat) (ws : list wpc) (c : cause) (sup : bool) (op
   observe (sched ops) (scenario_init s0 ws c sup).
 
 Definition scenario_statuses (s0 : stat) (ws : list wpc) (c : cause) (sup : bool) (ops : list op) : list stat :=
-  statuses_go [] ops (scenario_init s0 ws c sup).
+  statuses_go [] [] ops (scenario_init s0 ws c sup).
+
+(* executions of the cleanup block (observed by the harness as the number of process-group
+   Leave notifications for the actor) and what the property says about that number: never
+   twice, and once by the time the actor is Stopped.  (That the code runs it already at
+   Stopping is part of the model and of the compared view, not of the oracle.) *)
+Definition scenario_cleanups (s0 : stat) (ws : list wpc) (c : cause) (sup : bool) (ops : list op) : N :=
+  cleanups (gh (run (sched ops) (scenario_init s0 ws c sup))).
+
+Definition check_cleanup (n : N) (final : stat) : bool :=
+  (n <=? 1) && (if rank final =? 6 then n =? 1 else true).
 
 (* was the schedule maximal: the actor task has finished and the status is Stopped *)
 Definition scenario_complete (s0 : stat) (ws : list wpc) (c : cause) (sup : bool) (ops : list op) : bool :=
